@@ -12,6 +12,7 @@ package main
 //   cancel_on_failure, rearm_on_one_minute, banner_invariant.
 
 import (
+	"sort"
 	"encoding/json"
 	"fmt"
 	"os"
@@ -176,7 +177,10 @@ func run(ctx *Ctx) *Result {
 			for _, c := range cases {
 				if knownSlow(&c) {
 					slow++
-					if slow > 8 {
+					if slow > 24 {
+						// quick tier only: every such case ends in a 2 s time-out of the real code
+						// (F-C15b); the thorough tier runs them all
+						res.Count("dropped:quick-tier cap on F-C15b placements (first half of a joined line, probing banner)")
 						continue
 					}
 				}
@@ -206,11 +210,20 @@ func run(ctx *Ctx) *Result {
 		}
 	}
 	outs := runAll(all)
-	// A verdict other than "agrees / known class" is re-examined once on a quiet machine: the case and
-	// its baseline are run again after all workers have finished (the checks run next to 15 other
-	// jobs; a login that times out under load must not count as a finding). Genuine findings are
-	// deterministic and reproduce.
-	var retry []int
+	// Verdicts. A first verdict is never replaced by a re-run:
+	//  * HARD findings (a change outside the guard, write memory before the cancel or after a rejection,
+	//    a reload left pending) are reported from the first run, whatever else happened;
+	//  * a run that shows ENVIRONMENT trouble (login not reached, pty exhaustion, dead worker, a time-out
+	//    of the real code that the model does not predict — the checks run next to many other jobs) is
+	//    re-run serially with the SAME time-outs (they are inputs of the code under test); its other
+	//    first-run findings are held, not deleted: reported if the re-run CONFIRMS them, listed in the
+	//    notes as `not reproduced` otherwise; trouble again ⇒ counted inconclusive;
+	//  * every other finding is reported from the first run.  ALL re-runs are kept.
+	type heldT struct {
+		idx  int
+		what []string
+	}
+	var held []heldT
 	for i := range cases {
 		c := &cases[i]
 		o := &outs[i]
@@ -219,37 +232,59 @@ func run(ctx *Ctx) *Result {
 			base = &outs[j]
 		}
 		nd, nf := len(res.Disagreements), len(res.Failures)
-		judge(ctx, res, drv, c, o, base, false)
-		suspicious := len(res.Disagreements) > nd
-		for _, f := range res.Failures[nf:] {
-			if !expectedPred[fmt.Sprint(f.Sig["pred"])] {
-				suspicious = true
+		before := findingCounts(res)
+		envSuspect := judge(ctx, res, drv, c, o, base, false)
+		if envSuspect && ctx.Replay == "" {
+			// what this run found (from the counters: the lists are capped)
+			var what []string
+			for k, v := range findingCounts(res) {
+				if v > before[k] && !isHardKey(k) {
+					what = append(what, k)
+					res.Distribution[k] = before[k] // held, not reported from this run
+					if before[k] == 0 {
+						delete(res.Distribution, k)
+					}
+				}
 			}
-		}
-		if suspicious && ctx.Replay == "" {
+			sort.Strings(what)
+			var keepF []Failure
+			for _, f := range res.Failures[nf:] {
+				if hardPred[fmt.Sprint(f.Sig["pred"])] {
+					keepF = append(keepF, f)
+				}
+			}
+			res.Failures = append(res.Failures[:nf], keepF...)
 			res.Disagreements = res.Disagreements[:nd]
-			res.Failures = res.Failures[:nf]
-			retry = append(retry, i)
+			held = append(held, heldT{i, what})
 		}
 	}
-	if len(retry) > 0 {
-		res.CountN("re-examined-after-the-parallel-phase", len(retry))
-		if len(retry) > 40 {
-			retry = retry[:40] // systematic breakage: a sample is enough to report
-		}
+	if len(held) > 0 {
+		res.CountN("re-run serially after environment trouble in the first run", len(held))
 		var again []Case
-		for _, i := range retry {
-			c1, c2 := cloneCase(cases[i]), bannerFree(cases[i])
-			c1.Patient, c2.Patient = true, true
+		for _, h := range held {
+			c1, c2 := cloneCase(cases[h.idx]), bannerFree(cases[h.idx])
+			c1.Rerun, c2.Rerun = true, true
 			again = append(again, c1, c2)
 		}
-		// serially (two workers at most), with longer time-outs
 		outs2 := runAllN(again, 2)
-		for k, i := range retry {
-			judge(ctx, res, drv, &cases[i], &outs2[2*k], &outs2[2*k+1], true)
+		for k, h := range held {
+			before := findingCounts(res)
+			judge(ctx, res, drv, &cases[h.idx], &outs2[2*k], &outs2[2*k+1], true)
+			reproduced := false
+			for k2, v := range findingCounts(res) {
+				if v > before[k2] {
+					reproduced = true
+				}
+			}
+			if !reproduced && len(h.what) > 0 {
+				res.Count("first-run findings not reproduced on the serial re-run (kept in notes)")
+				if len(res.Notes) < 40 {
+					res.Notes = append(res.Notes, "not reproduced on re-run: "+strings.Join(h.what, ",")+" case="+caseKey(&cases[h.idx]))
+				}
+			}
 		}
-		// an environment failure that reproduces serially with long time-outs on many cases is
-		// systematic (e.g. the login itself is broken): that is a verdict, not an excuse
+		// an environment failure that reproduces serially on many cases is systematic (e.g. the login
+		// itself is broken): that is a verdict, not an excuse
 		if n := res.Distribution["inconclusive:environment"] + res.Distribution["inconclusive:environment (baseline)"]; n >= 8 {
 			res.Disagree("dialogue-systematic", map[string]any{"inconclusive": n},
 				"the dialogue does not get through its login / the process environment fails, reproducibly on "+fmt.Sprint(n)+" serial re-runs", "")
@@ -258,12 +293,35 @@ func run(ctx *Ctx) *Result {
 	return res
 }
 
-// predicates of the findings listed in known/C15.jsonl (not re-examined)
-var expectedPred = map[string]bool{
-	"fresh_prompt_probe_swallows_reply_of_second_half":   true,
-	"abort_inside_schedule_reload_leaves_reload_pending": true,
-	"late_fresh_prompt_missed_by_tryprompt":              true,
-	"two_prompt_banner_on_plain_sendcmd":                 true,
+// isHardKey: a failure counter (`failure:<sig as JSON>`) of a hard finding
+func isHardKey(k string) bool {
+	if !strings.HasPrefix(k, "failure:") {
+		return false
+	}
+	var sig map[string]any
+	if json.Unmarshal([]byte(strings.TrimPrefix(k, "failure:")), &sig) != nil {
+		return false
+	}
+	return hardPred[fmt.Sprint(sig["pred"])]
+}
+
+// findingCounts: the counters of disagreements and failures (the stored lists are capped)
+func findingCounts(res *Result) map[string]int {
+	m := map[string]int{}
+	for k, v := range res.Distribution {
+		if strings.HasPrefix(k, "disagreement:") || strings.HasPrefix(k, "failure:") {
+			m[k] = v
+		}
+	}
+	return m
+}
+
+// findings that are reported from the first run regardless of environment trouble
+var hardPred = map[string]bool{
+	"change_outside_guard_or_write_inside":      true,
+	"reload_pending_or_unsaved_after_success":   true,
+	"write_memory_although_change_not_accepted": true,
+	"reload_pending_after_failure":              true,
 }
 
 // first half of a joined line with a probing banner: the real code times out (known finding)
@@ -282,7 +340,7 @@ func knownSlow(c *Case) bool {
 	return false
 }
 
-func judge(ctx *Ctx, res *Result, drv *Nadrv, c *Case, o *WOutcome, base *WOutcome, again bool) {
+func judge(ctx *Ctx, res *Result, drv *Nadrv, c *Case, o *WOutcome, base *WOutcome, again bool) (envSuspect bool) {
 	in := replayIn{Case: *c}
 	nBanner, nBad := 0, 0
 	for _, b := range c.Behav {
@@ -314,8 +372,7 @@ func judge(ctx *Ctx, res *Result, drv *Nadrv, c *Case, o *WOutcome, base *WOutco
 		res.Count("timing:answer-in-pieces")
 	}
 	if c.Late {
-		judgeLate(ctx, res, drv, c, o, base, again)
-		return
+		return judgeLate(ctx, res, drv, c, o, base, again)
 	}
 	// ---- tie (b): model == implementation
 	impl := implView(o)
@@ -324,8 +381,9 @@ func judge(ctx *Ctx, res *Result, drv *Nadrv, c *Case, o *WOutcome, base *WOutco
 		res.Count("no-changes")
 		if impl != "R=ok\tT=\tW=" {
 			res.Disagree("dialogue", in, impl, "R=ok\tT=\tW=")
+			return envFailure(o)
 		}
-		return
+		return false
 	}
 	ans := drv.Ask(modelQuery(c, o.Changes, modelFixed))
 	model, _, hyp := modelView(ans)
@@ -372,14 +430,22 @@ func judge(ctx *Ctx, res *Result, drv *Nadrv, c *Case, o *WOutcome, base *WOutco
 		} else {
 			res.Disagree("environment", in, impl, model)
 		}
-		return
+		return true
 	}
 	if impl != model {
 		// the tie is broken here; the oracle below still looks for a concrete failing input
 		res.Disagree("dialogue", in, impl, model)
 	}
 	if strings.HasPrefix(impl, "BAD-LOGIN") || strings.HasPrefix(impl, "PANIC") {
-		return
+		return true
+	}
+	// a time-out of the real code that the model of the unchanged code does not predict may be load
+	implR, modelR := strings.SplitN(impl, "\t", 2)[0], strings.SplitN(model, "\t", 2)[0]
+	if implR != modelR && (strings.HasPrefix(implR, "R=abort:timeout") || strings.Contains(implR, "expect: ")) {
+		envSuspect = true
+	}
+	if base != nil && base.Status != 0 && strings.Contains(base.Stderr, "while waiting for") && len(c.Special) == 0 {
+		envSuspect = true
 	}
 	if base != nil && envFailure(base) {
 		// the baseline run itself did not get through: nothing to compare with
@@ -388,7 +454,7 @@ func judge(ctx *Ctx, res *Result, drv *Nadrv, c *Case, o *WOutcome, base *WOutco
 		} else {
 			res.Disagree("environment", in, "baseline: "+implView(base), "")
 		}
-		return
+		return true
 	}
 	if o.Status == 0 {
 		res.Count("result:ok")
@@ -405,7 +471,7 @@ func judge(ctx *Ctx, res *Result, drv *Nadrv, c *Case, o *WOutcome, base *WOutco
 	g := strings.Split(strings.TrimPrefix(drv.Ask("monitor\t"+strings.Join(el, "|")), "G="), ",")
 	if len(g) != 4 {
 		res.Disagree("monitor", in, "", strings.Join(g, ","))
-		return
+		return envSuspect
 	}
 	guardOK, pending := g[0] == "1", g[1] == "1"
 	has := func(x string) bool {
@@ -424,6 +490,18 @@ func judge(ctx *Ctx, res *Result, drv *Nadrv, c *Case, o *WOutcome, base *WOutco
 			}
 		}
 		return n
+	}
+	// attributes of the failing run, computed from the transcript and from the Lean model of the
+	// unchanged code; every known entry pins them, so a DIFFERENT violation on an input of a known
+	// class is still reported
+	at := runAttrs(c, o, ls, impl == model)
+	fail := func(sig map[string]any, what string) {
+		for k, v := range at {
+			if _, ok := sig[k]; !ok {
+				sig[k] = v
+			}
+		}
+		res.Fail(sig, what, in)
 	}
 	if !guardOK {
 		res.Fail(map[string]any{"pred": "change_outside_guard_or_write_inside"}, "a change line was sent while no reload was pending, or write memory while one was", in)
@@ -446,12 +524,13 @@ func judge(ctx *Ctx, res *Result, drv *Nadrv, c *Case, o *WOutcome, base *WOutco
 		if armed {
 			res.Fail(map[string]any{"pred": "reload_pending_after_failure"}, "failed run leaves the reload scheduled although the guarded block was entered", in)
 		} else {
-			res.Fail(map[string]any{"pred": "abort_inside_schedule_reload_leaves_reload_pending"}, "abort between the confirmation of `reload in 2` and the registration of the deferred cancel: reload stays scheduled, no cancel is sent", in)
+			fail(map[string]any{"pred": "abort_inside_schedule_reload_leaves_reload_pending"}, "abort between the confirmation of `reload in 2` and the registration of the deferred cancel: reload stays scheduled, no cancel is sent")
 		}
 	}
 	// rearm_on_one_minute: every send whose answer carried a 1:00 banner is followed by exactly one re-arm
 	for i, ch := range o.Changes {
-		if faulty || twoPromptFixed {
+		if faulty {
+			res.Count("oracle-skipped:re-arm count (fault injection on the fixed dialogue)")
 			break
 		}
 		halves := strings.Split(ch, "\n")
@@ -489,12 +568,36 @@ func judge(ctx *Ctx, res *Result, drv *Nadrv, c *Case, o *WOutcome, base *WOutco
 		if got != want {
 			sig := map[string]any{"pred": "rearm_mismatch"}
 			if p := probing(halves[0], c.Behav[halves[0]]); len(halves) == 2 && p != "" {
-				// the probe of the first half consumed (part of) the answer to the second half, banner included
-				sig = map[string]any{"pred": "fresh_prompt_probe_swallows_reply_of_second_half", "form": p}
+				// the probe of the first half of THIS send consumed (part of) the answer to its second
+				// half, banner included
+				sig = map[string]any{"pred": "fresh_prompt_probe_swallows_reply_of_second_half", "form": p, "symptom": "lost_rearm"}
 			} else if want == 1 && got == 0 && len(halves) == 2 && one == 0 {
 				sig = map[string]any{"pred": "one_minute_banner_in_first_half_of_joined_line_not_rearmed"}
 			}
-			res.Fail(sig, fmt.Sprintf("send %d: %d re-arm exchange(s), expected %d", i, got, want), in)
+			fail(sig, fmt.Sprintf("send %d: %d re-arm exchange(s), expected %d", i, got, want))
+		}
+	}
+	// the one-minute warning on a command that is not sent through cmd(): the property's last clause
+	// asks for a re-arm whatever command the warning rides on
+	for _, l := range []string{"configure terminal", "end"} {
+		b, ok := c.Fixed[l]
+		if !ok || !isOneMinute(b.Msg) {
+			continue
+		}
+		if o.Status != 0 {
+			res.Count("oracle-skipped:re-arm after a fixed line (run aborted)")
+			continue
+		}
+		// the banner rides on the LAST occurrence of the line (the first belongs to prepareDevice)
+		pos := -1
+		for j, x := range ls {
+			if x == l {
+				pos = j
+			}
+		}
+		if pos >= 0 && !(pos+1 < len(ls) && ls[pos+1] == "do reload in 2") {
+			fail(map[string]any{"pred": "one_minute_banner_on_fixed_line_not_rearmed", "line": l},
+				"a SHUTDOWN in 0:01:00 banner on `"+l+"` (sent with plain SendCmd, output never inspected) is not followed by `do reload in 2`")
 		}
 	}
 	// banner_invariant: same outcome as the banner-free run of the real code (scripted device
@@ -507,30 +610,100 @@ func judge(ctx *Ctx, res *Result, drv *Nadrv, c *Case, o *WOutcome, base *WOutco
 		if !same {
 			sig := map[string]any{"pred": "banner_changes_outcome"}
 			if twoPromptFixed {
-				sig = map[string]any{"pred": "two_prompt_banner_on_plain_sendcmd"}
+				sig = map[string]any{"pred": "two_prompt_banner_on_plain_sendcmd", "line": twoPromptLine(c)}
 			} else if hClean && hNoProbe {
 				// inside the domain of banner_invariant_partial: never expected
 				sig = map[string]any{"pred": "banner_changes_outcome_inside_proved_domain"}
 			} else if hClean {
-				for _, ch := range o.Changes {
-					halves := strings.Split(ch, "\n")
-					if len(halves) == 2 {
-						if p := probing(halves[0], c.Behav[halves[0]]); p != "" {
-							sig = map[string]any{"pred": "fresh_prompt_probe_swallows_reply_of_second_half", "form": p}
-							break
-						}
-					}
+				// F-C15b only if the transcript STOPS at a joined line whose first half carries a probing
+				// banner (`form_at_stop`), not because some joined line of the case has one
+				if p, ok := at["form_at_stop"].(string); ok && p != "" && at["aborted_at"] == "joined_line" {
+					sig = map[string]any{"pred": "fresh_prompt_probe_swallows_reply_of_second_half", "form": p, "symptom": "abort"}
 				}
 			}
-			res.Fail(sig, "outcome differs from the banner-free run: "+strings.SplitN(impl, "\t", 2)[0], in)
+			fail(sig, "outcome differs from the banner-free run: "+strings.SplitN(impl, "\t", 2)[0])
 		}
 	}
+	return envSuspect
+}
+
+// twoPromptLine: the plain-SendCmd line that carries the banner with a fresh prompt
+func twoPromptLine(c *Case) string {
+	if b, ok := c.Fixed["configure terminal"]; ok && (b.Form == "A" || b.Form == "C") {
+		return "configure terminal"
+	}
+	for k := range c.Special {
+		return "confirm:" + k
+	}
+	return "?"
+}
+
+// runAttrs: where and how the run ended, from the device's transcript.
+//   abort        : "ok" or the kind of the abort of the real run
+//   aborted_at   : "completed" | "no_change_sent" | "single_line" | "joined_line" — the last change packet sent
+//   form_at_stop : probing form ("A"/"D"/"") of the FIRST half of that packet if it is a joined line
+//   cleanup_sent : `end`, `reload cancel`, empty command follow the last change line, in this order
+//   write        : `write memory` was sent
+//   model_predicts: transcript, result and warnings equal those of the Lean model of the unchanged code
+func runAttrs(c *Case, o *WOutcome, ls []string, modelPredicts bool) map[string]any {
+	at := map[string]any{"model_predicts": modelPredicts}
+	abort := "ok"
+	if o.Status != 0 {
+		abort = strings.SplitN(classifyAbort(func() string { l, _ := lastAbort(errText(o.Stderr)); return l }()), ":", 2)[0]
+	}
+	at["abort"] = abort
+	lineOf := map[string]int{}
+	for k, ch := range o.Changes {
+		for _, l := range strings.Split(ch, "\n") {
+			lineOf[l] = k
+		}
+	}
+	last, lastK := -1, -1
+	for j, l := range ls {
+		if k, ok := lineOf[l]; ok {
+			last, lastK = j, k
+		}
+	}
+	at["form_at_stop"] = ""
+	switch {
+	case o.Status == 0:
+		at["aborted_at"] = "completed"
+	case lastK < 0:
+		at["aborted_at"] = "no_change_sent"
+	default:
+		halves := strings.Split(o.Changes[lastK], "\n")
+		if len(halves) == 2 {
+			at["aborted_at"] = "joined_line"
+			at["form_at_stop"] = probing(halves[0], c.Behav[halves[0]])
+		} else {
+			at["aborted_at"] = "single_line"
+		}
+	}
+	want := []string{"end", "reload cancel", ""}
+	w := 0
+	for j := last + 1; j < len(ls) && w < len(want); j++ {
+		if j < 0 {
+			continue
+		}
+		if ls[j] == want[w] {
+			w++
+		}
+	}
+	at["cleanup_sent"] = w == len(want) && last >= 0
+	wr := false
+	for _, l := range ls {
+		if l == "write memory" {
+			wr = true
+		}
+	}
+	at["write"] = wr
+	return at
 }
 
 // judgeLate: the cut isolates the second prompt of a form-C answer and the piece arrives 150 ms
 // later. The outcome of the real code depends on the timing: either TryPrompt misses the late
 // prompt (model: lateDevice; F-C15d) or, if the client was slow, it behaves as on the fast device.
-func judgeLate(ctx *Ctx, res *Result, drv *Nadrv, c *Case, o *WOutcome, base *WOutcome, again bool) {
+func judgeLate(ctx *Ctx, res *Result, drv *Nadrv, c *Case, o *WOutcome, base *WOutcome, again bool) bool {
 	in := replayIn{Case: *c}
 	if !again {
 		res.Eval(caseKey(c), true)
@@ -547,12 +720,18 @@ func judgeLate(ctx *Ctx, res *Result, drv *Nadrv, c *Case, o *WOutcome, base *WO
 		res.Count("timing:late-prompt:as-fast-device")
 	default:
 		res.Disagree("dialogue-late", in, impl, late+" || "+fast)
-		return
+		return envFailure(o)
 	}
 	if base != nil && (base.Status != o.Status) {
-		res.Fail(map[string]any{"pred": "late_fresh_prompt_missed_by_tryprompt"},
-			"the fresh prompt behind a banner arrives late, TryPrompt (time-out 0) misses it, the stale prompt desynchronises the dialogue: "+strings.SplitN(impl, "\t", 2)[0], in)
+		ls, _ := applyLines(o.Lines)
+		sig := map[string]any{"pred": "late_fresh_prompt_missed_by_tryprompt"}
+		// model_predicts: the run equals the Lean model with the LATE device (lateDevice)
+		for k, v := range runAttrs(c, o, ls, impl == late) {
+			sig[k] = v
+		}
+		res.Fail(sig, "the fresh prompt behind a banner arrives late, TryPrompt (time-out 0) misses it, the stale prompt desynchronises the dialogue: "+strings.SplitN(impl, "\t", 2)[0], in)
 	}
+	return false
 }
 
 // envFailure: the dialogue did not get through its login, or the process ran out of ptys / file
